@@ -1,46 +1,148 @@
 //! Verification-only container models. Compiled only under `cfg(kani)` (set by `cargo kani`).
 //!
-//! These are `Vec`-backed models of the parts of `std::collections::{HashMap, BTreeMap}` that the
-//! crate and the verification harnesses use. `HashMap` iteration order is chosen nondeterministically
-//! (any permutation), `BTreeMap` iterates in key order. No crate logic lives here.
+//! Models of the parts of `std::collections::{HashMap, BTreeMap}` that the crate and the
+//! verification harnesses use. No crate logic lives here.
+//!
+//! * Entries live in *typed static pools* (one per entry type) and a map holds only small indices.
+//!   The model checker keeps pointers that sit in typed memory constant, whereas pointers stored in
+//!   heap byte buffers are opaque to its constant propagation; with the pools every value of a
+//!   message stays at most one untyped hop away from something concrete.
+//! * `HashMap` iteration order is a permutation of insertion order selected by the harness through
+//!   [`set_order`] (harnesses enumerate the permutations); `BTreeMap` iterates in key order.
 use std::borrow::Borrow;
+use std::marker::PhantomData;
 
-fn nondet_below(n: usize) -> usize {
-    let i: usize = kani::any();
-    kani::assume(i < n);
-    i
+const POOL: usize = 40;
+const CAP: usize = 8;
+
+pub struct Pool<T> {
+    slots: [Option<T>; POOL],
+    used: usize,
 }
 
-#[derive(Clone, Debug)]
+impl<T> Pool<T> {
+    const fn new() -> Self {
+        Pool {
+            slots: [const { None }; POOL],
+            used: 0,
+        }
+    }
+    fn alloc(&mut self, v: T) -> u8 {
+        let s = self.used;
+        assert!(s < POOL, "verif_shim pool exhausted");
+        self.slots[s] = Some(v);
+        self.used += 1;
+        s as u8
+    }
+    fn at(&self, i: u8) -> &T {
+        match &self.slots[i as usize] {
+            Some(v) => v,
+            None => panic!("verif_shim: empty pool slot"),
+        }
+    }
+    fn at_mut(&mut self, i: u8) -> &mut T {
+        match &mut self.slots[i as usize] {
+            Some(v) => v,
+            None => panic!("verif_shim: empty pool slot"),
+        }
+    }
+}
+
+/// entry types that have a pool
+pub trait Pooled: Sized + 'static {
+    fn pool() -> &'static mut Pool<Self>;
+}
+
+static mut ATTR_POOL: Pool<(String, crate::attribute::IppAttribute)> = Pool::new();
+static mut VALUE_POOL: Pool<(String, crate::value::IppValue)> = Pool::new();
+
+impl Pooled for (String, crate::attribute::IppAttribute) {
+    fn pool() -> &'static mut Pool<Self> {
+        unsafe { &mut *core::ptr::addr_of_mut!(ATTR_POOL) }
+    }
+}
+impl Pooled for (String, crate::value::IppValue) {
+    fn pool() -> &'static mut Pool<Self> {
+        unsafe { &mut *core::ptr::addr_of_mut!(VALUE_POOL) }
+    }
+}
+
+static mut ORDER: usize = 0;
+
+/// Select the iteration order of every `HashMap` created by the model: `k` is the index of a
+/// permutation of insertion order (factorial number system; 0 = insertion order).
+pub fn set_order(k: usize) {
+    unsafe { ORDER = k }
+}
+
+/// position in insertion order of the `step`-th element yielded, for a map of `n` entries
+fn order_pick(n: usize, step: usize, taken: u16) -> usize {
+    // decode digit `step` of ORDER in the factorial number system over the not-yet-taken entries
+    let mut k = unsafe { ORDER };
+    let mut s = 0;
+    let mut digit = 0;
+    while s <= step {
+        let radix = n - s;
+        digit = k % radix;
+        k /= radix;
+        s += 1;
+    }
+    // digit-th entry (in insertion order) among those not taken yet
+    let mut i = 0;
+    let mut seen = 0;
+    while i < n {
+        if taken & (1 << i) == 0 {
+            if seen == digit {
+                return i;
+            }
+            seen += 1;
+        }
+        i += 1;
+    }
+    0
+}
+
 pub struct HashMap<K, V> {
-    items: Vec<(K, V)>,
+    idx: [u8; CAP],
+    len: usize,
+    _m: PhantomData<(K, V)>,
 }
 
 impl<K, V> Default for HashMap<K, V> {
     fn default() -> Self {
-        HashMap { items: Vec::new() }
+        HashMap {
+            idx: [0; CAP],
+            len: 0,
+            _m: PhantomData,
+        }
     }
 }
 
-impl<K: Eq, V> HashMap<K, V> {
+impl<K: Eq, V> HashMap<K, V>
+where
+    (K, V): Pooled,
+{
     pub fn new() -> Self {
-        HashMap { items: Vec::new() }
+        Self::default()
     }
     pub fn len(&self) -> usize {
-        self.items.len()
+        self.len
     }
     pub fn is_empty(&self) -> bool {
-        self.items.is_empty()
+        self.len == 0
     }
     pub fn insert(&mut self, k: K, v: V) -> Option<V> {
         let mut i = 0;
-        while i < self.items.len() {
-            if self.items[i].0 == k {
-                return Some(core::mem::replace(&mut self.items[i].1, v));
+        while i < self.len {
+            let e = <(K, V)>::pool().at_mut(self.idx[i]);
+            if e.0 == k {
+                return Some(core::mem::replace(&mut e.1, v));
             }
             i += 1;
         }
-        self.items.push((k, v));
+        assert!(self.len < CAP, "verif_shim map capacity exceeded");
+        self.idx[self.len] = <(K, V)>::pool().alloc((k, v));
+        self.len += 1;
         None
     }
     pub fn get<Q: ?Sized + Eq>(&self, k: &Q) -> Option<&V>
@@ -48,9 +150,10 @@ impl<K: Eq, V> HashMap<K, V> {
         K: Borrow<Q>,
     {
         let mut i = 0;
-        while i < self.items.len() {
-            if self.items[i].0.borrow() == k {
-                return Some(&self.items[i].1);
+        while i < self.len {
+            let e = <(K, V)>::pool().at(self.idx[i]);
+            if e.0.borrow() == k {
+                return Some(&e.1);
             }
             i += 1;
         }
@@ -62,75 +165,115 @@ impl<K: Eq, V> HashMap<K, V> {
     {
         self.get(k).is_some()
     }
-    /// Values in a nondeterministically chosen order (any permutation of the entries).
+    /// Values in the order selected with [`set_order`].
     pub fn values(&self) -> Values<'_, K, V> {
         Values {
             map: self,
-            visited: 0,
-            left: self.items.len(),
+            taken: 0,
+            step: 0,
         }
     }
-    /// Entries in insertion order; for harness-side inspection only (the crate never calls it).
-    pub fn verif_entries(&self) -> &[(K, V)] {
-        &self.items
+}
+
+impl<K: Eq + Clone, V: Clone> Clone for HashMap<K, V>
+where
+    (K, V): Pooled,
+{
+    fn clone(&self) -> Self {
+        let mut m = Self::default();
+        let mut i = 0;
+        while i < self.len {
+            let e = <(K, V)>::pool().at(self.idx[i]).clone();
+            m.idx[i] = <(K, V)>::pool().alloc(e);
+            i += 1;
+        }
+        m.len = self.len;
+        m
+    }
+}
+
+impl<K, V> core::fmt::Debug for HashMap<K, V> {
+    fn fmt(&self, _f: &mut core::fmt::Formatter<'_>) -> core::fmt::Result {
+        Ok(())
     }
 }
 
 pub struct Values<'a, K, V> {
     map: &'a HashMap<K, V>,
-    visited: u64,
-    left: usize,
+    taken: u16,
+    step: usize,
 }
 
-impl<'a, K, V> Iterator for Values<'a, K, V> {
+impl<'a, K: Eq, V> Iterator for Values<'a, K, V>
+where
+    (K, V): Pooled,
+{
     type Item = &'a V;
     fn next(&mut self) -> Option<&'a V> {
-        if self.left == 0 {
+        let n = self.map.len;
+        if self.step >= n {
             return None;
         }
-        let n = self.map.items.len();
-        if n == 1 {
-            self.left = 0;
-            return Some(&self.map.items[0].1);
-        }
-        let i = nondet_below(n);
-        kani::assume(self.visited & (1u64 << i) == 0);
-        self.visited |= 1u64 << i;
-        self.left -= 1;
-        Some(&self.map.items[i].1)
+        let i = order_pick(n, self.step, self.taken);
+        self.taken |= 1 << i;
+        self.step += 1;
+        Some(&<(K, V)>::pool().at(self.map.idx[i]).1)
     }
 }
 
-#[derive(Clone, Debug)]
 pub struct BTreeMap<K, V> {
-    items: Vec<(K, V)>,
+    idx: [u8; CAP],
+    len: usize,
+    _m: PhantomData<(K, V)>,
 }
 
 impl<K, V> Default for BTreeMap<K, V> {
     fn default() -> Self {
-        BTreeMap { items: Vec::new() }
+        BTreeMap {
+            idx: [0; CAP],
+            len: 0,
+            _m: PhantomData,
+        }
     }
 }
 
-impl<K: Ord, V> BTreeMap<K, V> {
+impl<K: Ord, V> BTreeMap<K, V>
+where
+    (K, V): Pooled,
+{
     pub fn new() -> Self {
-        BTreeMap { items: Vec::new() }
+        Self::default()
     }
     pub fn len(&self) -> usize {
-        self.items.len()
+        self.len
     }
     pub fn is_empty(&self) -> bool {
-        self.items.is_empty()
+        self.len == 0
     }
+    /// entries are kept sorted by key
     pub fn insert(&mut self, k: K, v: V) -> Option<V> {
         let mut i = 0;
-        while i < self.items.len() {
-            if self.items[i].0 == k {
-                return Some(core::mem::replace(&mut self.items[i].1, v));
+        while i < self.len {
+            let e = <(K, V)>::pool().at_mut(self.idx[i]);
+            if e.0 == k {
+                return Some(core::mem::replace(&mut e.1, v));
             }
             i += 1;
         }
-        self.items.push((k, v));
+        assert!(self.len < CAP, "verif_shim map capacity exceeded");
+        // position of the first key greater than k
+        let mut pos = 0;
+        while pos < self.len && <(K, V)>::pool().at(self.idx[pos]).0 < k {
+            pos += 1;
+        }
+        let slot = <(K, V)>::pool().alloc((k, v));
+        let mut j = self.len;
+        while j > pos {
+            self.idx[j] = self.idx[j - 1];
+            j -= 1;
+        }
+        self.idx[pos] = slot;
+        self.len += 1;
         None
     }
     pub fn get<Q: ?Sized + Ord>(&self, k: &Q) -> Option<&V>
@@ -138,9 +281,10 @@ impl<K: Ord, V> BTreeMap<K, V> {
         K: Borrow<Q>,
     {
         let mut i = 0;
-        while i < self.items.len() {
-            if self.items[i].0.borrow() == k {
-                return Some(&self.items[i].1);
+        while i < self.len {
+            let e = <(K, V)>::pool().at(self.idx[i]);
+            if e.0.borrow() == k {
+                return Some(&e.1);
             }
             i += 1;
         }
@@ -148,78 +292,78 @@ impl<K: Ord, V> BTreeMap<K, V> {
     }
     /// Entries in ascending key order.
     pub fn iter(&self) -> Iter<'_, K, V> {
-        Iter {
-            map: self,
-            last: None,
-            left: self.items.len(),
-        }
+        Iter { map: self, pos: 0 }
     }
 }
 
 pub struct Iter<'a, K, V> {
     map: &'a BTreeMap<K, V>,
-    last: Option<&'a K>,
-    left: usize,
+    pos: usize,
 }
 
-impl<'a, K: Ord, V> Iterator for Iter<'a, K, V> {
+impl<'a, K: Ord, V> Iterator for Iter<'a, K, V>
+where
+    (K, V): Pooled,
+{
     type Item = (&'a K, &'a V);
     fn next(&mut self) -> Option<(&'a K, &'a V)> {
-        if self.left == 0 {
+        if self.pos >= self.map.len {
             return None;
         }
-        // smallest key strictly greater than `last`
-        let mut best: Option<usize> = None;
+        let e = <(K, V)>::pool().at(self.map.idx[self.pos]);
+        self.pos += 1;
+        Some((&e.0, &e.1))
+    }
+}
+
+impl<K: Ord + Clone, V: Clone> Clone for BTreeMap<K, V>
+where
+    (K, V): Pooled,
+{
+    fn clone(&self) -> Self {
+        let mut m = Self::default();
         let mut i = 0;
-        while i < self.map.items.len() {
-            let k = &self.map.items[i].0;
-            let after = match self.last {
-                None => true,
-                Some(l) => k > l,
-            };
-            if after {
-                best = match best {
-                    None => Some(i),
-                    Some(b) => {
-                        if *k < self.map.items[b].0 {
-                            Some(i)
-                        } else {
-                            Some(b)
-                        }
-                    }
-                };
+        while i < self.len {
+            let e = <(K, V)>::pool().at(self.idx[i]).clone();
+            m.idx[i] = <(K, V)>::pool().alloc(e);
+            i += 1;
+        }
+        m.len = self.len;
+        m
+    }
+}
+
+impl<K, V> core::fmt::Debug for BTreeMap<K, V> {
+    fn fmt(&self, _f: &mut core::fmt::Formatter<'_>) -> core::fmt::Result {
+        Ok(())
+    }
+}
+
+impl<K: Ord, V: PartialEq> PartialEq for BTreeMap<K, V>
+where
+    (K, V): Pooled,
+{
+    fn eq(&self, other: &Self) -> bool {
+        if self.len != other.len {
+            return false;
+        }
+        let mut i = 0;
+        while i < self.len {
+            let a = <(K, V)>::pool().at(self.idx[i]);
+            let b = <(K, V)>::pool().at(other.idx[i]);
+            if a.0 != b.0 || a.1 != b.1 {
+                return false;
             }
             i += 1;
         }
-        let b = best?;
-        self.left -= 1;
-        self.last = Some(&self.map.items[b].0);
-        Some((&self.map.items[b].0, &self.map.items[b].1))
+        true
     }
 }
-
-impl<K: Ord, V: PartialEq> PartialEq for BTreeMap<K, V> {
-    fn eq(&self, other: &Self) -> bool {
-        if self.len() != other.len() {
-            return false;
-        }
-        let mut a = self.iter();
-        let mut b = other.iter();
-        loop {
-            match (a.next(), b.next()) {
-                (None, None) => return true,
-                (Some((ka, va)), Some((kb, vb))) => {
-                    if ka != kb || va != vb {
-                        return false;
-                    }
-                }
-                _ => return false,
-            }
-        }
-    }
-}
-impl<K: Ord, V: Eq> Eq for BTreeMap<K, V> {}
-impl<K: Ord + core::hash::Hash, V: core::hash::Hash> core::hash::Hash for BTreeMap<K, V> {
+impl<K: Ord, V: Eq> Eq for BTreeMap<K, V> where (K, V): Pooled {}
+impl<K: Ord + core::hash::Hash, V: core::hash::Hash> core::hash::Hash for BTreeMap<K, V>
+where
+    (K, V): Pooled,
+{
     fn hash<H: core::hash::Hasher>(&self, state: &mut H) {
         for (k, v) in self.iter() {
             k.hash(state);
